@@ -6,6 +6,7 @@ import (
 	"sort"
 
 	"github.com/ethereum/go-ethereum/common"
+	"github.com/ethereum/go-ethereum/crypto"
 	"github.com/ethereum/go-ethereum/params"
 	"github.com/ethereum/go-ethereum/rlp"
 	"github.com/holiman/billy"
@@ -21,8 +22,8 @@ import (
 // VerifStoreHook is called around every mutation of the queue store ("queue")
 // and the limbo store ("limbo"). phase 0 = before the call (a non-nil error is
 // returned to the pool instead of performing the call), phase 1 = after a
-// successful call.
-type VerifStoreHook func(store, op string, phase int, id uint64, size int) error
+// successful call (for a Put the entry describes what was stored and where).
+type VerifStoreHook func(store, op string, phase int, e VerifStoreEntry) error
 
 type verifStore struct {
 	billy.Database
@@ -31,23 +32,29 @@ type verifStore struct {
 }
 
 func (s *verifStore) Put(data []byte) (uint64, error) {
-	if err := s.hook(s.name, "put", 0, 0, len(data)); err != nil {
+	if err := s.hook(s.name, "put", 0, VerifStoreEntry{}); err != nil {
 		return 0, err
 	}
 	id, err := s.Database.Put(data)
 	if err == nil {
-		s.hook(s.name, "put", 1, id, len(data))
+		var e VerifStoreEntry
+		if s.name == "limbo" {
+			e = decodeLimboEntry(id, s.Database.Size(id), data)
+		} else {
+			e = decodeQueueEntry(id, s.Database.Size(id), data, false)
+		}
+		s.hook(s.name, "put", 1, e)
 	}
 	return id, err
 }
 
 func (s *verifStore) Delete(id uint64) error {
-	if err := s.hook(s.name, "delete", 0, id, 0); err != nil {
+	if err := s.hook(s.name, "delete", 0, VerifStoreEntry{ID: id}); err != nil {
 		return err
 	}
 	err := s.Database.Delete(id)
 	if err == nil {
-		s.hook(s.name, "delete", 1, id, 0)
+		s.hook(s.name, "delete", 1, VerifStoreEntry{ID: id})
 	}
 	return err
 }
@@ -219,14 +226,29 @@ type VerifStoreEntry struct {
 	Bad   bool   // entry did not decode
 }
 
+// txHashOfStored returns the hash of the transaction inside a stored
+// BlobTxForPool RLP without decoding the cell payload: the first list element is
+// the typed-transaction byte string whose keccak is the transaction hash.
+func txHashOfStored(data []byte) (common.Hash, bool) {
+	elems, err := rlp.SplitListValues(data)
+	if err != nil || len(elems) < 2 {
+		return common.Hash{}, false
+	}
+	content, _, err := rlp.SplitString(elems[0])
+	if err != nil || len(content) < 2 || content[0] != 3 {
+		return common.Hash{}, false
+	}
+	return crypto.Keccak256Hash(content), true
+}
+
 func decodeQueueEntry(id uint64, size uint32, data []byte, keep bool) VerifStoreEntry {
 	e := VerifStoreEntry{ID: id, Size: size}
-	var ptx BlobTxForPool
-	if err := rlp.DecodeBytes(data, &ptx); err != nil || ptx.Tx == nil {
+	h, ok := txHashOfStored(data)
+	if !ok {
 		e.Bad = true
 		return e
 	}
-	e.Hash = ptx.Tx.Hash()
+	e.Hash = h
 	if keep {
 		e.Data = append([]byte{}, data...)
 	}
@@ -235,13 +257,24 @@ func decodeQueueEntry(id uint64, size uint32, data []byte, keep bool) VerifStore
 
 func decodeLimboEntry(id uint64, size uint32, data []byte) VerifStoreEntry {
 	e := VerifStoreEntry{ID: id, Size: size}
-	item := new(limboBlob)
-	if err := rlp.DecodeBytes(data, item); err != nil || item.Ptx == nil || item.Ptx.Tx == nil {
+	elems, err := rlp.SplitListValues(data)
+	if err != nil || len(elems) < 3 {
 		e.Bad = true
 		return e
 	}
-	e.Hash, e.Block = item.TxHash, item.Block
-	if item.Ptx.Tx.Hash() != item.TxHash {
+	hb, _, err := rlp.SplitString(elems[0])
+	if err != nil || len(hb) != 32 {
+		e.Bad = true
+		return e
+	}
+	e.Hash = common.BytesToHash(hb)
+	blk, _, err := rlp.SplitUint64(elems[1])
+	if err != nil {
+		e.Bad = true
+		return e
+	}
+	e.Block = blk
+	if h, ok := txHashOfStored(elems[2]); !ok || h != e.Hash {
 		e.Bad = true
 	}
 	return e
